@@ -19,8 +19,12 @@
 (*        accepted items); declared size = payload length and the sink     *)
 (*        ends on a block boundary (`aligned`); for snappy the 4 trailing  *)
 (*        bytes are the big-endian CRC-32 of the raw data;                 *)
-(*      - after finish / into_inner / drop everything accepted is in the   *)
-(*        sink.                                                            *)
+(*      - after a successful finish / into_inner / drop everything         *)
+(*        accepted is in the sink;                                         *)
+(*      - res = "err_io": the call failed because the sink failed (C16     *)
+(*        scenarios where the failing sink call accepted nothing): the     *)
+(*        value may or may not have been taken, and the stream must stay   *)
+(*        a valid file that later calls complete.                          *)
 (***************************************************************************)
 EXTENDS SerdeModel, ContainerFile, Crc, Json, IOUtils, TLC
 
@@ -57,25 +61,30 @@ BlocksOk(blocks, i, acc, nf) ==
          THEN BlocksOk(blocks, i + 1, acc, nf + b.count)
          ELSE -1
 
-BadAcc == << <<-1>> >>        \* not a sequence of encodings
+\* candidate values of `accepted` after the call (several when a sink error leaves it open whether the value was taken)
+Candidates(e) ==
+    LET G == Scope[si].nodes IN
+    CASE e.op = "serialize" ->
+            LET d    == Den(G, 1, e.pres, FALSE)
+                item == IF d.m # "err" /\ ~d.any /\ Cardinality(d.vs) = 1 THEN {Enc(G, 1, CHOOSE v \in d.vs : TRUE)} ELSE {}
+            IN  IF e.res = "ok" THEN {Append(accepted, it) : it \in item}
+                ELSE IF e.res = "err" THEN (IF d.m # "ok" THEN {accepted} ELSE {})
+                ELSE IF e.res = "err_io" THEN {accepted} \cup {Append(accepted, it) : it \in item}     \* the sink failed during this call
+                ELSE {}
+      [] e.op = "push" ->
+            LET it == ItemsFrom(G, e.bytes, 1, e.n) IN
+            IF ~it.ok THEN {}
+            ELSE IF e.res = "ok" THEN {accepted \o it.items}
+            ELSE IF e.res = "err_io" THEN {accepted, accepted \o it.items}
+            ELSE {}
+      [] OTHER -> IF e.res \in {"ok", "err_io"} THEN {accepted} ELSE {}
 
 OpAllowed(e) ==
-    LET G == Scope[si].nodes
-        newAcc ==
-            CASE e.op = "serialize" ->
-                    LET d == Den(G, 1, e.pres, FALSE) IN
-                    IF e.res = "ok" THEN
-                        IF d.m # "err" /\ ~d.any /\ Cardinality(d.vs) = 1
-                        THEN Append(accepted, Enc(G, 1, CHOOSE v \in d.vs : TRUE)) ELSE BadAcc
-                    ELSE IF e.res = "err" /\ d.m # "ok" THEN accepted ELSE BadAcc
-              [] e.op = "push" ->
-                    LET it == ItemsFrom(G, e.bytes, 1, e.n) IN
-                    IF e.res = "ok" /\ it.ok THEN accepted \o it.items ELSE BadAcc
-              [] OTHER -> IF e.res = "ok" THEN accepted ELSE BadAcc
-        nf == IF newAcc = BadAcc THEN -1 ELSE BlocksOk(e.blocks, 1, newAcc, nflushed)
-    IN  /\ newAcc # BadAcc /\ nf >= 0
+    \E newAcc \in Candidates(e) :
+        LET nf == BlocksOk(e.blocks, 1, newAcc, nflushed) IN
+        /\ nf >= 0
         /\ e.aligned
-        /\ (e.op \in {"finish", "into_inner", "drop"} => nf = Len(newAcc))
+        /\ ((e.res = "ok" /\ e.op \in {"finish", "into_inner", "drop"}) => nf = Len(newAcc))
         /\ accepted' = newAcc /\ nflushed' = nf
 
 Init == l = 1 /\ si = 0 /\ sync = <<>> /\ codec = <<>> /\ accepted = <<>> /\ nflushed = 0
